@@ -86,6 +86,7 @@ type runner struct {
 	pc         string
 	cur        string
 	stopped    bool
+	results    int  // handler results produced so far
 	late       bool // the set also holds the never started original queue (lateQueue)
 	unreported bool // the worker passed its last gate but the set's own WaitStopWithTimeout ran into its timeout
 	poisoned   bool // a panic happened inside a critical section: the queue lock may be held forever
@@ -251,6 +252,15 @@ func (r *runner) apply(st Step) (err error, retMismatch string) {
 		err = r.advance(false)
 	case "W_Handler":
 		res := queue.TaskResult{Status: queue.TaskStatus(fmt.Sprint(a[1])), AfterTasks: tasks(a[2]), HeadTasks: tasks(a[3]), TailTasks: tasks(a[4])}
+		r.results++
+		if r.results%2 == 0 {
+			// a handler may well cut its three lists out of one array (with spare capacity behind): the queue must
+			// not write into what it was handed
+			all := make([]task.Task, 0, len(res.AfterTasks)+len(res.HeadTasks)+len(res.TailTasks)+4)
+			all = append(append(append(all, res.AfterTasks...), res.HeadTasks...), res.TailTasks...)
+			la, lh := len(res.AfterTasks), len(res.HeadTasks)
+			res.AfterTasks, res.HeadTasks, res.TailTasks = all[:la], all[la:la+lh], all[la+lh:]
+		}
 		if b, _ := a[5].(bool); b {
 			res.DelayBeforeNextTask = time.Nanosecond
 		}
